@@ -500,6 +500,20 @@ func c13Eval(c core.Case) (res core.Result) {
 	return
 }
 
+func jsonDepth(x any) int {
+	m, ok := x.(map[string]any)
+	if !ok {
+		return 0
+	}
+	d := 0
+	for _, k := range []string{"left", "right"} {
+		if n := jsonDepth(m[k]); n > d {
+			d = n
+		}
+	}
+	return d + 1
+}
+
 // c13Shrink: structural shrinking of JSON documents (drop a member, replace a member by a simpler
 // value, hoist a child) and byte deletion for non-JSON inputs.
 func c13Shrink(c core.Case) []core.Case {
@@ -513,6 +527,39 @@ func c13Shrink(c core.Case) []core.Case {
 		if err == nil && string(b) != string(c.In) {
 			out = append(out, core.Case{Kind: c.Kind, In: core.BStr(b)})
 		}
+	}
+	// deep documents first lose half of their depth at a time: the descendants at depth n/2, n/4, ...
+	// along the deepest path become the whole document
+	var path []any
+	for x := v; ; {
+		m, ok := x.(map[string]any)
+		if !ok {
+			break
+		}
+		path = append(path, x)
+		var next any
+		best := -1
+		for _, k := range []string{"left", "right"} {
+			if c, ok := m[k].(map[string]any); ok {
+				if d := jsonDepth(c); d > best {
+					best, next = d, c
+				}
+			}
+		}
+		if next == nil {
+			break
+		}
+		x = next
+	}
+	for d := len(path) / 2; d >= 1; d /= 2 {
+		emit(path[d])
+	}
+	if len(c.In) > 4096 {
+		// one level at a time and nothing finer until the document is small
+		if len(path) > 1 {
+			emit(path[1])
+		}
+		return out
 	}
 	var rec func(x any, put func(any))
 	rec = func(x any, put func(any)) {
